@@ -556,10 +556,12 @@ class World:
             self.drop_slot(d)
 
     def op_reference(self):
-        """reference nodes: the referenced root stays frozen while a reference to it is alive"""
+        """reference nodes: the tree that holds the referenced item stays frozen while a reference
+        to it is alive.  The referenced item may be a root or any member inside that tree (its
+        sibling links must not leak into the reference)."""
         rng = self.rng
-        targets = [r for r in self.roots if r.kind in 'aos' and not r.ref and r.parent is None]
-        if not targets or rng.random() < 0.4:
+        troots = [r for r in self.roots if not r.ref and r.parent is None]
+        if not troots or rng.random() < 0.4:
             m = treegen.gen_tree(rng, maxdepth=2, distinct_keys=False)
             if m.kind not in 'ao':
                 a = Node('a'); a.kids = [m]; m.parent = a; m = a
@@ -567,41 +569,47 @@ class World:
             self.emit('build %d %s' % (s, to_tn(m)), ['p'])
             self.roots.append(m)
             fix_parents(m)
-            t = m
+            troot = m
         else:
-            t = rng.choice(targets)
-        st = self.handle(t)
+            troot = rng.choice(troots)
+        cands = [n for n in self.owned_nodes(troot) if not n.ref]
+        t = troot if rng.random() < 0.45 else rng.choice(cands)
         r = rng.random()
-        if r < 0.45:
+        if r < 0.55:
             c = self.pick_container(mutable=True)
-            if c is None or self.root_of(c) is t:
+            if c is None or self.root_of(c) is troot:
                 return
+            st = self.handle(t)
             ref = Node(t.kind, ref=True, bits=t.bits, ival=t.ival, sval=t.sval)
             ref.kids = t.kids
-            ref.reft = t
+            ref.reft = troot
             sc = self.handle(c)
             if c.kind == 'a':
                 self.emit('addrefa %d %d' % (sc, st), ['1'])
+                ref.kconst = t.kconst      # create_reference copies the type bits; the flag is inert without a key
             else:
                 key = rng.choice(KEYS)
                 self.emit('addrefo %d %s %d' % (sc, hx(key), st), ['1'])
                 ref.key = key
             ref.parent = c
             c.kids.append(ref)
-            self.last_mut = 'addref'
+            self.last_mut = 'addref' + ('' if t is troot else '-of-member')
         else:
-            if t.kind == 's':
-                return
-            # an object reference to a keyless item would be an object with a keyless member: user error
-            kind = rng.choice('ao') if t.key is not None else 'a'
+            # cJSON_Create{Array,Object}Reference(item): the new container's child chain starts at
+            # `item` and runs through item's following siblings
+            par = t.parent
+            view = [t] if par is None else par.kids[par.kids.index(t):]
+            keyed = all(v.key is not None for v in view)
+            kind = rng.choice('ao') if keyed else 'a'
+            st = self.handle(t)
             ref = Node(kind, ref=True)
-            ref.kids = [t]
-            ref.reft = t
+            ref.kids = list(view)
+            ref.reft = troot
             d = self.new_slot(ref)
             self.emit('%s %d %d' % ('carrref' if kind == 'a' else 'cobjref', d, st), ['p'])
             self.roots.append(ref)
-            self.last_mut = 'cref'
-        self.frozen[t.uid] = self.frozen.get(t.uid, 0) + 1
+            self.last_mut = 'cref' + ('' if t is troot else '-of-member')
+        self.frozen[troot.uid] = self.frozen.get(troot.uid, 0) + 1
 
     # ---- queries ----
     def op_queries(self):
